@@ -201,6 +201,20 @@ func isNum(v reflect.Value) bool {
 	return false
 }
 
+// decimalStringToNum converts a string holding a decimal numeral to a number:
+// an int64 if it is formatted as an integer, a float64 otherwise.
+// Both operand orders of a string/number comparison use it.
+func decimalStringToNum(v reflect.Value) (reflect.Value, bool) {
+	s := v.String()
+	if i, err := strconv.ParseInt(s, 10, 64); err == nil {
+		return reflect.ValueOf(i), true
+	}
+	if f, err := strconv.ParseFloat(s, 64); err == nil {
+		return reflect.ValueOf(f), true
+	}
+	return v, false
+}
+
 // equal returns true when lhsV and rhsV is same value.
 func equal(lhsV, rhsV reflect.Value) bool {
 	lhsIsNil, rhsIsNil := isNil(lhsV), isNil(rhsV)
@@ -222,24 +236,17 @@ func equal(lhsV, rhsV reflect.Value) bool {
 	// while leaving the other side alone. Code further
 	// down takes care of converting ints and floats as needed.
 	if isNum(lhsV) && rhsV.Kind() == reflect.String {
-		rhsF, err := tryToFloat64(rhsV)
-		if err != nil {
-			// Couldn't convert RHS to a float, they can't be compared.
+		var ok bool
+		rhsV, ok = decimalStringToNum(rhsV)
+		if !ok {
+			// Couldn't convert RHS to a number, they can't be compared.
 			return false
 		}
-		rhsV = reflect.ValueOf(rhsF)
 	} else if lhsV.Kind() == reflect.String && isNum(rhsV) {
-		// If the LHS is a string formatted as an int, try that before trying float
-		lhsI, err := tryToInt64(lhsV)
-		if err != nil {
-			// if LHS is a float, e.g. "1.2", we need to set lhsV to a float64
-			lhsF, err := tryToFloat64(lhsV)
-			if err != nil {
-				return false
-			}
-			lhsV = reflect.ValueOf(lhsF)
-		} else {
-			lhsV = reflect.ValueOf(lhsI)
+		var ok bool
+		lhsV, ok = decimalStringToNum(lhsV)
+		if !ok {
+			return false
 		}
 	}
 
@@ -255,7 +262,12 @@ func equal(lhsV, rhsV reflect.Value) bool {
 		if lhsKind == rhsKind {
 			return toFloat64(lhsV) == toFloat64(rhsV)
 		}
-		// mixed types: use string representation for compatibility
+		// an integer and a float are equal exactly when they are
+		// numerically equal (both <= and >= hold between them)
+		if lhsIsFloat != rhsIsFloat {
+			return toFloat64(lhsV) == toFloat64(rhsV)
+		}
+		// float32 and float64: use string representation for compatibility
 		// (e.g. float32(1.1) should equal float64(1.1))
 		return numToString(lhsV) == numToString(rhsV)
 	}
